@@ -1200,6 +1200,11 @@ func SplitBMP(data []byte, atEOF bool) (advance int, token []byte, err error) {
 	if err = tmpHdr.DecodeFromBytes(data[:BMP_HEADER_SIZE]); err != nil {
 		return 0, nil, nil
 	}
+	if tmpHdr.Length < BMP_HEADER_SIZE {
+		// the length covers the common header: anything shorter cannot be
+		// framed, and a zero length would yield an empty token forever
+		return 0, nil, fmt.Errorf("invalid BMP message length %d", tmpHdr.Length)
+	}
 	if len(data) < int(tmpHdr.Length) {
 		return 0, nil, nil
 	}
